@@ -612,6 +612,10 @@ class MQTTProtocol(MQTTBaseProtocol):
             self._retryRelease(reply, dup=True)
         for _, request in self.factory.windowPublish[self.addr].items():
             self._retryPublish(request, dup=True)
+        for _, request in self.factory.windowSubscribe[self.addr].items():
+            self._retrySubscribe(request, dup=True)
+        for _, request in self.factory.windowUnsubscribe[self.addr].items():
+            self._retryUnsubscribe(request, dup=True)
 
     # --------------------------------------------------------------------------
 
@@ -629,6 +633,12 @@ class MQTTProtocol(MQTTBaseProtocol):
             request = self.factory.windowPubRelease[self.addr][k]
             del self.factory.windowPubRelease[self.addr][k]
             request.deferred.errback(reason)
+
+        for window in (self.factory.windowSubscribe[self.addr], self.factory.windowUnsubscribe[self.addr]):
+            for k in list(window):
+                request = window[k]
+                del window[k]
+                request.deferred.errback(reason)
 
 
     # -------------------------------------
